@@ -171,12 +171,29 @@ func VerifStruct() {
 	if byPtr {
 		doc = &t
 	}
-	r1, e1 := Search(expr, doc)
+	nints := verifParam("ints")
+	ints := make([]int, nints)
+	for i := range ints {
+		ints[i] = verifNondetInt()
+	}
+	var r1 interface{}
+	var e1 error
+	if nints == 0 {
+		r1, e1 = Search(expr, doc)
+	} else {
+		r1, e1 = verifSearchPatched(expr, doc, ints)
+	}
 	verifNote("err", e1 != nil)
 	if !cmp {
 		return // functions on typed slices: only "no panic" is claimed
 	}
-	r2, e2 := Search(expr, verifImage(t))
+	var r2 interface{}
+	var e2 error
+	if nints == 0 {
+		r2, e2 = Search(expr, verifImage(t))
+	} else {
+		r2, e2 = verifSearchPatched(expr, verifImage(t), ints)
+	}
 	verifAssert((e1 != nil) == (e2 != nil), "C18:error-ness-differs-from-generic-document")
 	if e1 != nil || e2 != nil {
 		return
